@@ -376,7 +376,8 @@ JudgeSeek(fmt, chain, s, e) ==
       tgt == {i \in 1..Len(chain) : chain[i].coords /\ e.to = <<chain[i].line, chain[i].byte>>}
   IN CASE r.k \in {"panic", "hang"} -> [viol |-> {<<"C06", r.k>>}, s |-> [s EXCEPT !.mode = "lost"]]
        [] r.k = "ok" -> IF tgt = {} THEN [viol |-> {}, s |-> [s EXCEPT !.mode = "lost"]]   \* not a record position: unspecified
-                        ELSE [viol |-> {}, s |-> [s EXCEPT !.cur = Min(tgt), !.mode = "stream", !.ctx = @ \cup {"seek"}]]
+                        \* (from a successful seek on it is the seek that determines where the stream stands, no longer an earlier take-over)
+                        ELSE [viol |-> {}, s |-> [s EXCEPT !.cur = Min(tgt), !.mode = "stream", !.ctx = (@ \ {"takeover"}) \cup {"seek"}]]
        [] r.k = "io" -> [viol |-> {}, s |-> [s EXCEPT !.mode = "limbo", !.lim = 0]]
        [] OTHER -> [viol |-> {<<"C05", "seek_failed_without_source_error">>}, s |-> [s EXCEPT !.mode = "lost"]]
 
